@@ -81,7 +81,7 @@ type op struct {
 	kind       opKind
 	cases      []Case
 	hasDefault bool
-	n          int  // opChoose: number of alternatives
+	n          int   // opChoose: number of alternatives
 	ch         *Chan // opClose
 	tag        uint64
 	site       string
@@ -105,7 +105,7 @@ type Chan struct {
 	recvSeq uint64
 	auto    bool
 	tm      *Timer // channel of a timer
-	reply   bool // cap-1 channel used as a one-shot reply slot (discipline checked at run time)
+	reply   bool   // cap-1 channel used as a one-shot reply slot (discipline checked at run time)
 	nsend   int
 	nrecv   int
 	wepoch  uint64
@@ -260,31 +260,31 @@ type BlockedG struct {
 
 // Sched is one execution.
 type Sched struct {
-	cfg     Config
-	chooser Chooser
-	gs      []*G
-	cur     *G
-	runq    []*G
-	chans   map[unsafe.Pointer]*Chan
-	yield   chan struct{}
+	cfg      Config
+	chooser  Chooser
+	gs       []*G
+	cur      *G
+	runq     []*G
+	chans    map[unsafe.Pointer]*Chan
+	yield    chan struct{}
 	aborting bool
-	steps   int
-	clock   int64
-	timers  []*Timer
-	res     *Result
-	autoN   int
-	ptrs    map[unsafe.Pointer]string
-	objs    map[interface{}]*Obj
-	last    *G
-	fp      H // commutative sum over goroutine chains (maintained incrementally)
-	extra   H // timers + clock + objects contributions are folded at query time
-	en      []Trans
-	waitR   map[*Chan][]waiter
-	stop    bool
-	epoch   uint64
-	esteps  int
-	heart   *uint64
-	Values  map[string]interface{} // harness scratch, reset per execution
+	steps    int
+	clock    int64
+	timers   []*Timer
+	res      *Result
+	autoN    int
+	ptrs     map[unsafe.Pointer]string
+	objs     map[interface{}]*Obj
+	last     *G
+	fp       H // commutative sum over goroutine chains (maintained incrementally)
+	extra    H // timers + clock + objects contributions are folded at query time
+	en       []Trans
+	waitR    map[*Chan][]waiter
+	stop     bool
+	epoch    uint64
+	esteps   int
+	heart    *uint64
+	Values   map[string]interface{} // harness scratch, reset per execution
 }
 
 type waiter struct {
